@@ -1,8 +1,12 @@
 (** C05 — property theorems only. *)
 From Coq Require Import List ZArith NArith Bool.
-From C33 Require Import C01.Keys C01.Model C01.Store C05.Model C05.Spec C05.Hist C05.ProofsErase C05.ProofsRefuted.
+From C33 Require Import C01.Keys C01.Model C01.Store C05.Model C05.Spec C05.Hist
+  C05.ProofsErase C05.ProofsRefuted C05.ProofsPrune C05.ProofsMain C05.ProofsExamples.
+Import ListNotations.
 Open Scope Z_scope.
 
+(** the property at full strength fails on the faithful model (both witnesses
+    are reproduced on the Go code by the harness: known findings 1 and 2) *)
 Theorem C05_refuted : ~ C05_prune_keeps_live_full.
 Proof. exact prune_keeps_live_refuted. Qed.
 Print Assumptions C05_refuted.
@@ -11,6 +15,37 @@ Theorem C05_refuted_fork : ~ C05_prune_keeps_live_full.
 Proof. exact prune_keeps_live_refuted_fork. Qed.
 Print Assumptions C05_refuted_fork.
 
+(** under the boolean guard "linear history, every writing commit produces a
+    state root not seen before": for ALL configurations, histories and
+    interleaved pruning runs, no commit fails and every key of every commit
+    within PruneHeight of the top reads its abstract value *)
+Theorem C05_prune_keeps_live_partial :
+  forall c ops, cfg_valid c = true -> ops_valid c init_mstate ops = true ->
+    linear_fresh c init_mstate ops = true ->
+    live_readable c (mrun c ops).
+Proof. exact prune_keeps_live_guarded. Qed.
+Print Assumptions C05_prune_keeps_live_partial.
+
+(** the guard is satisfiable by a history on which pruning deletes old versions *)
+Theorem C05_guard_nonvacuous :
+  cfg_valid cfg2 = true /\ ops_valid cfg2 init_mstate ex_ops = true /\
+  linear_fresh cfg2 init_mstate ex_ops = true /\
+  map (fun i => read_at (mrun cfg2 ex_ops) i ka) [0; 1; 2]%nat = [None; None; None] /\
+  live (prune_height cfg2) (ms_ac (mrun cfg2 ex_ops)) = [6; 5; 4]%nat.
+Proof.
+  destruct ex_valid as [A [B C]]. destruct ex_pruned as [D [E _]]. auto.
+Qed.
+Print Assumptions C05_guard_nonvacuous.
+
+(** a pruning run only deletes node records listed (as leaf or ancestor) by an
+    index entry that has a newer, old enough entry of the same key *)
+Theorem C05_prune_deletes_only_superseded : forall c cur d r,
+  (forall e, In e (all_entries d) -> 0 <= ik_height e) ->
+  safe_ref c cur d r -> node_get (pruning_tree c cur d) r = node_get d r.
+Proof. exact pruning_keep. Qed.
+Print Assumptions C05_prune_deletes_only_superseded.
+
+(** the tree a commit builds is C01's [set] (so C01's theorems apply to it) *)
 Theorem C05_commit_tree_is_C01_set : forall t k v, erase_res (aset t k v) = set (erase t) k v.
 Proof. exact erase_set. Qed.
 Print Assumptions C05_commit_tree_is_C01_set.
